@@ -153,6 +153,8 @@ class Stdlib:
         if isinstance(obj, SSlice):
             if attr in ('start', 'stop', 'step'):
                 return getattr(obj, attr)
+            if attr == 'indices':
+                return ModelMethod(obj, attr)
         if isinstance(obj, NP.SArray):
             if attr == 'shape':
                 return tuple(obj.shape)
@@ -439,7 +441,37 @@ class Stdlib:
         return None
 
     def symbolic_comprehension(self, I, frame, n):
-        return None
+        """[elt for v in range(...)] with a symbolic trip count: the element is evaluated ONCE for a generic ordinal k
+        (like an L3 loop body: no branching on k except raises) and the result is a symbolic-length list."""
+        from .models import SymSeq
+        from . import loops
+        import ast as _ast
+        if len(n.generators) != 1 or n.generators[0].ifs or not isinstance(n, (_ast.ListComp, _ast.GeneratorExp)):
+            return None
+        g = n.generators[0]
+        it = frame.eval(g.iter)
+        if self.concrete_iter(I, it) is not None:
+            return None
+        if not isinstance(it, SRange):
+            return None
+        c = cur()
+        length = it.length()
+        nonempty = ops_cmp('>', length, 0)
+        if nonempty is False or (nonempty is not True and not c.decide(zbool(nonempty))):
+            return []
+        kz = c.fresh_int('Ck')
+        c.assume_raw(z3.And(kz >= 0, kz < zint(length)))
+        c.nonneg_ids.add(kz.get_id())
+        c.counter += 1
+        fam = loops.Family(loops.IndependentWrites(witness=None), [loops.LoopVar(kz, length, 'comprehension')], c.counter, dict(frame.env), frame.f.qualname)
+        c.family.append(fam)
+        try:
+            sub = Frame(I, frame.f, dict(frame.env))
+            sub.assign(g.target, it.item(SInt(kz)))
+            val = sub.eval(n.elt)
+        finally:
+            c.family.pop()
+        return SymSeq(length, lambda j, val=val, kz=kz: loops.subst(val, [(kz, zint(j))]))
 
     # ------------------------------------------------------------------ calls
     def call_ext(self, I, dotted, args, kwargs, node):
